@@ -436,6 +436,9 @@ func (s *c04State) op(line string) (int, string) {
 }
 
 func (s *c04State) exec(w []string) string {
+	if w[0] == "mergewit" {
+		return c04MergeWit(w[1:])
+	}
 	if w[0] == "sheet" {
 		d, ok := c04ParseDesc(w[1:])
 		if !ok {
@@ -975,7 +978,12 @@ func c04APIRecipe(sub uint64) (c04Builder, string) {
 		case k < 10:
 			o.kind, o.sval = "formula", rng.Pick([]string{"1+1", "SUM(A1:B2)", "A1&\"x\""})
 		case k < 11:
-			o.kind, o.ival = "style", rng.Range(1, 3) // styled-but-empty (or restyled) cell
+			if rng.Bool() {
+				// a number cell whose number format renders text (date, literal prefix)
+				o.kind, o.fval, o.ival = "fmtnum", float64(rng.Range(1, 45000)), rng.Range(3, 4)
+			} else {
+				o.kind, o.ival = "style", rng.Range(1, 3) // styled-but-empty (or restyled) cell
+			}
 		case k < 12:
 			// merged ranges stay disjoint (overlapping ranges are outside C03's invariant; the
 			// GetMergeCells finding on them is reproduced by the witness "overlap-merge")
@@ -1012,7 +1020,9 @@ func c04APIRecipe(sub uint64) (c04Builder, string) {
 		s1, _ := f.NewStyle(&xl.Style{Font: &xl.Font{Bold: true}})
 		s2, _ := f.NewStyle(&xl.Style{NumFmt: 2})
 		s3, _ := f.NewStyle(&xl.Style{NumFmt: 14})
-		styles := []int{0, s1, s2, s3}
+		xfmt := "\"x\"0"
+		s4, _ := f.NewStyle(&xl.Style{CustomNumFmt: &xfmt})
+		styles := []int{0, s1, s2, s3, s4}
 		for _, o := range ops {
 			switch o.kind {
 			case "str":
@@ -1026,6 +1036,9 @@ func c04APIRecipe(sub uint64) (c04Builder, string) {
 			case "formula":
 				f.SetCellFormula(o.sheet, o.cell, o.sval)
 			case "style":
+				f.SetCellStyle(o.sheet, o.cell, o.cell, styles[o.ival])
+			case "fmtnum":
+				f.SetCellValue(o.sheet, o.cell, o.fval)
 				f.SetCellStyle(o.sheet, o.cell, o.cell, styles[o.ival])
 			case "merge":
 				f.MergeCell(o.sheet, o.cell, o.cell2)
@@ -1559,6 +1572,43 @@ func c04AgreeFile(r *Run, f *xl.File, sh, replay, what string) {
 	if len(g) > 0 && len(g[len(g)-1]) == 0 {
 		r.Fail("agree:getrows-trailing-empty-row", "GetRows ends with an empty row: "+what, 0, replay)
 	}
+	c04SearchVsRows(r, f, sh, g, replay, what)
+}
+
+// literal SearchSheet finds exactly the cells that GetRows shows with that text, whatever
+// the cell type and number format behind the text (every distinct non-empty text of the sheet,
+// at most 12, texts that do not look like numbers first)
+func c04SearchVsRows(r *Run, f *xl.File, sh string, g [][]string, replay, what string) {
+	pos := map[string][]string{}
+	var order []string
+	for ro := range g {
+		for c, v := range g[ro] {
+			if v == "" {
+				continue
+			}
+			if _, ok := pos[v]; !ok {
+				order = append(order, v)
+			}
+			pos[v] = append(pos[v], c04Name(c+1, ro+1))
+		}
+	}
+	sort.SliceStable(order, func(i, j int) bool {
+		return !c04IsCanonNum(order[i]) && c04IsCanonNum(order[j])
+	})
+	if len(order) > 12 {
+		order = order[:12]
+	}
+	for _, v := range order {
+		res, err := f.SearchSheet(sh, v)
+		r.Stat("agree:search-needles")
+		if err != nil {
+			r.Fail("agree:search-error", fmt.Sprintf("SearchSheet(%q) error %v; state: %s", v, err, what), 0, replay)
+			continue
+		}
+		if strings.Join(res, ",") != strings.Join(pos[v], ",") {
+			r.Fail("agree:search-vs-getrows", fmt.Sprintf("%s: SearchSheet(%q) = %v, GetRows shows that text at %v; state: %s", sh, v, res, pos[v], what), 0, replay)
+		}
+	}
 }
 
 // ---------------------------------------------------------------- witnesses of the known findings / fixed defects
@@ -1658,6 +1708,19 @@ func c04Witness(r *Run, name string) {
 		if err == nil {
 			r.Fail("agree:getrows-swallows-row-limit", fmt.Sprintf("row r=1048577 after row 1: GetRows returns %q and a nil error", g), 0, replay)
 		}
+	case "search-formatted": // literal search sees the formatted text of number cells
+		f := xl.NewFile()
+		defer f.Close()
+		xfmt := "\"x\"0"
+		s1, _ := f.NewStyle(&xl.Style{CustomNumFmt: &xfmt})
+		s2, _ := f.NewStyle(&xl.Style{NumFmt: 14})
+		f.SetCellValue("Sheet1", "A1", 5)
+		f.SetCellStyle("Sheet1", "A1", "A1", s1)
+		f.SetCellValue("Sheet1", "B2", 36526)
+		f.SetCellStyle("Sheet1", "B2", "B2", s2)
+		f.SetCellValue("Sheet1", "C3", "x5")
+		g, _ := f.GetRows("Sheet1")
+		c04SearchVsRows(r, f, "Sheet1", g, replay, fmt.Sprintf("A1=5 as \"x\"0, B2=36526 as date, C3=\"x5\"; GetRows %q", g))
 	case "search-panic":
 		f := xl.NewFile()
 		defer f.Close()
@@ -1694,7 +1757,7 @@ func runC04(r *Run, rng *Rng, replay string) {
 	// coverage of the getter list
 	r.Notes = append(r.Notes, fmt.Sprintf("read batch draws from %d exported read functions", len(c04Covered)))
 	// 0. witnesses (deterministic)
-	for _, w := range []string{"raw-rewrite", "materialise", "search-panic", "basecolor", "overlap-merge", "condstyle-write", "sst-created", "rows-limit"} {
+	for _, w := range []string{"raw-rewrite", "materialise", "search-panic", "basecolor", "search-formatted", "condstyle-write", "sst-created", "rows-limit"} {
 		c04Witness(r, w)
 	}
 	for _, k := range []string{"rless-mixed", "missing-r-search"} {
@@ -1723,6 +1786,12 @@ func runC04(r *Run, rng *Rng, replay string) {
 		d := c04GenDesc(sub, i%10 < 7)
 		c04XMLCase(r, sub, d, "generated")
 	}
+	// 2b. GetMergeCells as a state transformer (merge list model shared with C03)
+	nm := 150
+	if thorough {
+		nm = 3000
+	}
+	c04MergeCases(r, NewRng(c04Sub(r.Seed, "merge", 0)), nm)
 	// 3. malformed op lines (driver and harness must both answer bad-op)
 	s := &c04State{r: r}
 	for _, l := range []string{"sheet ROW 1 0 C 1 1 0 61", "get 0 1", "get 1 0", "get 16385 1", "get 1 1048577", "style 16385 1", "style 1 1048577", "style 0 0", "vis 0", "vis 1048577", "rows"} {
@@ -1793,6 +1862,14 @@ func c04Replay(r *Run, path string) {
 			case "api", "xmlbatch":
 				sub, _ := strconv.ParseUint(w[2], 10, 64)
 				c04BatchCase(r, w[1], sub)
+			}
+			continue
+		}
+		if w[0] == "mergewit" {
+			ln, res := s.op(line)
+			var b, k, a int
+			if _, err := fmt.Sscanf(res, "ok %d %d %d", &b, &k, &a); err == nil && b != a {
+				r.Fail("purity:obs:GetMergeCells:overlapping-merges", "GetCellValue answers differently after GetMergeCells: "+line+" => "+res, ln, line)
 			}
 			continue
 		}
@@ -1899,4 +1976,93 @@ func c04NoSST(xs []string) []string {
 		}
 	}
 	return out
+}
+
+// mergewit c r  c1 r1 c2 r2 ...: on a new file MergeCell every range, set (c,r) (outside every
+// range) to "v", then GetCellValue(c,r), GetMergeCells, GetCellValue(c,r): "ok <is v> <ranges> <is v>"
+func c04MergeWit(w []string) string {
+	var ns []int
+	for _, x := range w {
+		n, err := strconv.Atoi(x)
+		if err != nil || n < 1 || n > 1000 {
+			return "bad-op"
+		}
+		ns = append(ns, n)
+	}
+	if len(ns) < 2 || (len(ns)-2)%4 != 0 {
+		return "bad-op"
+	}
+	f := xl.NewFile()
+	defer f.Close()
+	for i := 2; i+3 < len(ns); i += 4 {
+		if err := f.MergeCell("Sheet1", c04Name(ns[i], ns[i+1]), c04Name(ns[i+2], ns[i+3])); err != nil {
+			return "ERR"
+		}
+	}
+	cell := c04Name(ns[0], ns[1])
+	if err := f.SetCellValue("Sheet1", cell, "v"); err != nil {
+		return "ERR"
+	}
+	b2i := func(b bool) int {
+		if b {
+			return 1
+		}
+		return 0
+	}
+	v1, _ := f.GetCellValue("Sheet1", cell)
+	m, err := f.GetMergeCells("Sheet1")
+	if err != nil {
+		return "ERR"
+	}
+	v2, _ := f.GetCellValue("Sheet1", cell)
+	return fmt.Sprintf("ok %d %d %d", b2i(v1 == "v"), len(m), b2i(v2 == "v"))
+}
+
+// mergeCases: the witness of the open finding plus generated range lists
+func c04MergeCases(r *Run, rng *Rng, n int) {
+	s := &c04State{r: r}
+	run := func(line string) {
+		s.replay = nil
+		ln, res := s.op(line)
+		r.Case(line, true)
+		r.Stat("mergewit")
+		var b, k, a int
+		if _, err := fmt.Sscanf(res, "ok %d %d %d", &b, &k, &a); err != nil {
+			r.Fail("agree:mergewit-error", "GetMergeCells scenario fails: "+res, ln, line)
+			return
+		}
+		if b != a {
+			r.Fail("purity:obs:GetMergeCells:overlapping-merges", "GetCellValue of a cell outside every merged range answers differently after GetMergeCells (overlapping merged ranges are normalised in place): "+line+" => "+res, ln, line)
+		}
+	}
+	run("mergewit 5 7 4 8 6 10 2 7 4 9") // E7; D8:F10, B7:D9
+	for i := 0; i < n; i++ {
+		k := rng.Range(1, 4)
+		var rects [][4]int
+		for j := 0; j < k; j++ {
+			c1, r1 := rng.Range(1, 7), rng.Range(1, 7)
+			rects = append(rects, [4]int{c1, r1, c1 + rng.Range(0, 3), r1 + rng.Range(0, 3)})
+		}
+		c, ro := 0, 0
+		for try := 0; try < 50 && c == 0; try++ {
+			x, y := rng.Range(1, 10), rng.Range(1, 10)
+			in := false
+			for _, q := range rects {
+				if q[0] <= x && x <= q[2] && q[1] <= y && y <= q[3] {
+					in = true
+				}
+			}
+			if !in {
+				c, ro = x, y
+			}
+		}
+		if c == 0 {
+			continue
+		}
+		line := fmt.Sprintf("mergewit %d %d", c, ro)
+		for _, q := range rects {
+			line += fmt.Sprintf(" %d %d %d %d", q[0], q[1], q[2], q[3])
+		}
+		run(line)
+	}
 }
